@@ -450,6 +450,33 @@ func c16Refresh(p *Prog, r *Report) {
 						armed = true
 					}
 				}
+				// or the arm's body was moved into a helper that reports whether to refresh:
+				// the timer is armed when the helper says so, and the helper says so for this event type
+				if !ct.Truth {
+					continue
+				}
+				for _, o := range origins(ct.Cond) {
+					hc, ok := o.(*ssa.Call)
+					if !ok || hc.Call.StaticCallee() == nil || recvNamed(hc.Call.StaticCallee()) != cl {
+						continue
+					}
+					eachInstr(hc.Call.StaticCallee(), func(hin ssa.Instruction) {
+						ret, ok := hin.(*ssa.Return)
+						if !ok || len(ret.Results) != 1 {
+							return
+						}
+						if k, isC := ret.Results[0].(*ssa.Const); isC && k.Value != nil && k.Value.ExactString() == "false" {
+							return
+						}
+						for _, hct := range dominatingConds(ret.Block()) {
+							if ex, ok := hct.Cond.(*ssa.Extract); ok && hct.Truth {
+								if ta, ok := ex.Tuple.(*ssa.TypeAssert); ok && typeIs(ta.AssertedType, "message", want) {
+									armed = true
+								}
+							}
+						}
+					})
+				}
 			}
 		})
 		if !armed {
@@ -458,7 +485,14 @@ func c16Refresh(p *Prog, r *Report) {
 	}
 	// status: only UP
 	upOnly := false
-	eachInstr(sc, func(in ssa.Instruction) {
+	var scFns []*ssa.Function
+	for _, f := range withCallees(p, sc, 2) {
+		if f == sc || (f.Parent() == nil && recvNamed(f) == cl && onlyCalledFrom(p, f, sc, 3)) {
+			scFns = append(scFns, f)
+		}
+	}
+	for _, scf := range scFns {
+	eachInstr(scf, func(in ssa.Instruction) {
 		if bo, ok := in.(*ssa.BinOp); ok && bo.Op == token.EQL {
 			for _, side := range []ssa.Value{bo.X, bo.Y} {
 				if k, ok := side.(*ssa.Const); ok && k.Value != nil && k.Value.ExactString() == p.constOf("primitive", "StatusChangeTypeUp").ExactString() {
@@ -467,6 +501,7 @@ func c16Refresh(p *Prog, r *Report) {
 			}
 		}
 	})
+	}
 	if !upOnly {
 		bad = append(bad, "status events are not filtered for UP")
 	}
@@ -633,30 +668,49 @@ func c16Outage(p *Prog, r *Report) {
 			if isNow {
 				nNow++
 				// in the IsClosed case of the control loop: a select on IsClosed() of the control connection
-				okCase := false
-				eachInstr(fn, func(in ssa.Instruction) {
-					sel, ok := in.(*ssa.Select)
-					if !ok {
-						return
-					}
-					var idxVal ssa.Value
-					for _, ref := range *sel.Referrers() {
-						if ex, ok := ref.(*ssa.Extract); ok && ex.Index == 0 {
-							idxVal = ex
+				var inClosedArm func(site ssa.Instruction, depth int) bool
+				inClosedArm = func(site ssa.Instruction, depth int) bool {
+					sfn := site.Parent()
+					found := false
+					eachInstr(sfn, func(in ssa.Instruction) {
+						sel, ok := in.(*ssa.Select)
+						if !ok {
+							return
 						}
-					}
-					for i, st := range sel.States {
-						if cc, ok := st.Chan.(*ssa.Call); ok && cc.Call.StaticCallee() != nil && cc.Call.StaticCallee().Name() == "IsClosed" {
-							for _, ct := range dominatingConds(c.Block()) {
-								if bo, ok := ct.Cond.(*ssa.BinOp); ok && bo.Op == token.EQL && ct.Truth && bo.X == idxVal {
-									if k, ok := constInt(bo.Y); ok && k == int64(i) {
-										okCase = true
+						var idxVal ssa.Value
+						for _, ref := range *sel.Referrers() {
+							if ex, ok := ref.(*ssa.Extract); ok && ex.Index == 0 {
+								idxVal = ex
+							}
+						}
+						for i, st := range sel.States {
+							if cc, ok := st.Chan.(*ssa.Call); ok && cc.Call.StaticCallee() != nil && cc.Call.StaticCallee().Name() == "IsClosed" {
+								for _, ct := range dominatingConds(site.Block()) {
+									if bo, ok := ct.Cond.(*ssa.BinOp); ok && bo.Op == token.EQL && ct.Truth && bo.X == idxVal {
+										if k, ok := constInt(bo.Y); ok && k == int64(i) {
+											found = true
+										}
 									}
 								}
 							}
 						}
+					})
+					if found || depth == 0 {
+						return found
 					}
-				})
+					// a private helper holding the arm's body: every call site is in that arm
+					sites, only := p.staticCallSites(rootFn(sfn))
+					if !only || len(sites) == 0 {
+						return false
+					}
+					for _, cs := range sites {
+						if !inClosedArm(cs.(ssa.Instruction), depth-1) {
+							return false
+						}
+					}
+					return true
+				}
+				okCase := inClosedArm(c.(ssa.Instruction), 2)
 				if !okCase {
 					bad = append(bad, p.Pos(c.Pos())+": the outage clock is started somewhere other than where the control connection is found closed")
 				}
